@@ -49,13 +49,24 @@ func callOfName(v ssa.Value, name string) *ssa.Call {
 // c04Unfold: era unfolding in TimeFromTime64.
 func c04Unfold(p *ana.Prog, r *ana.Result, pset *ana.ProverSet, fn *ssa.Function) {
 	fname := ana.FuncName(fn)
-	pr := pset.For(fn)
 	unix := ana.CallsIn(fn, "time.Unix")
-	if len(unix) != 1 {
-		r.Violate("C04.unfold", fname, "result-site", p.Pos(fn.Pos()), fmt.Sprintf("UNDECIDED: expected one time.Unix(sec, nsec) building the result, found %d", len(unix)))
+	if len(unix) == 0 {
+		r.Violate("C04.unfold", fname, "result-site", p.Pos(fn.Pos()), "UNDECIDED: no time.Unix(sec, nsec) building the result")
 		return
 	}
-	at := unix[0].(*ssa.Call)
+	if len(unix) > 1 {
+		// several result sites (early returns): each is checked on its own
+		for i, u := range unix {
+			c04UnfoldAt(p, r, pset, fn, u.(*ssa.Call), fmt.Sprintf("#%d", i+1))
+		}
+		return
+	}
+	c04UnfoldAt(p, r, pset, fn, unix[0].(*ssa.Call), "")
+}
+
+func c04UnfoldAt(p *ana.Prog, r *ana.Result, pset *ana.ProverSet, fn *ssa.Function, at *ssa.Call, suffix string) {
+	fname := ana.FuncName(fn)
+	pr := pset.For(fn)
 	sec := at.Call.Args[0]
 	// tref: (time.Time).Unix of the reference parameter
 	var tref *ssa.Call
@@ -71,7 +82,7 @@ func c04Unfold(p *ana.Prog, r *ana.Result, pset *ana.ProverSet, fn *ssa.Function
 	trefAtom := pr.SetRange(tref, 0, 0, false) // references from 1970 on
 	secL, ok := pr.Int(sec, 0)
 	if !ok {
-		r.Violate("C04.unfold", fname, "within-half-era", posOf(p, at), "UNDECIDED: seconds value outside the linear domain")
+		r.Violate("C04.unfold", fname, "within-half-era"+suffix, posOf(p, at), "UNDECIDED: seconds value outside the linear domain")
 		return
 	}
 	half := secsPerEra / 2
@@ -81,11 +92,11 @@ func c04Unfold(p *ana.Prog, r *ana.Result, pset *ana.ProverSet, fn *ssa.Function
 	okHi := pr.ProveAt(upper, at)
 	switch {
 	case okLo && okHi:
-		r.Ok("C04.unfold", fname, "within-half-era", posOf(p, at), "on every path tref - 2^31 <= sec < tref + 2^31 (both directions across an era boundary)")
+		r.Ok("C04.unfold", fname, "within-half-era"+suffix, posOf(p, at), "on every path tref - 2^31 <= sec < tref + 2^31 (both directions across an era boundary)")
 	case !okHi:
-		r.Violate("C04.unfold", fname, "within-half-era", posOf(p, at), "the unfolded second count can be 2^31 s or more after the reference: a timestamp from just before an era boundary, unfolded against a reference just after it, lands one era (136 years) late - the unfolding only corrects towards the future")
+		r.Violate("C04.unfold", fname, "within-half-era"+suffix, posOf(p, at), "the unfolded second count can be 2^31 s or more after the reference: a timestamp from just before an era boundary, unfolded against a reference just after it, lands one era (136 years) late - the unfolding only corrects towards the future")
 	default:
-		r.Violate("C04.unfold", fname, "within-half-era", posOf(p, at), "the unfolded second count can be more than 2^31 s before the reference: a timestamp from just after an era boundary, unfolded against a reference just before it, lands one era early")
+		r.Violate("C04.unfold", fname, "within-half-era"+suffix, posOf(p, at), "the unfolded second count can be more than 2^31 s before the reference: a timestamp from just after an era boundary, unfolded against a reference just before it, lands one era early")
 	}
 	// congruence: every value reaching sec is epoch + k*2^32 + Seconds
 	var leaves []ssa.Value
@@ -134,9 +145,9 @@ func c04Unfold(p *ana.Prog, r *ana.Result, pset *ana.ProverSet, fn *ssa.Function
 		}
 	}
 	if okCong {
-		r.Ok("C04.unfold", fname, "congruent-to-seconds-field", posOf(p, at), fmt.Sprintf("all %d candidate values are epoch + k*2^32 + Seconds", len(leaves)))
+		r.Ok("C04.unfold", fname, "congruent-to-seconds-field"+suffix, posOf(p, at), fmt.Sprintf("all %d candidate values are epoch + k*2^32 + Seconds", len(leaves)))
 	} else {
-		r.Violate("C04.unfold", fname, "congruent-to-seconds-field", posOf(p, at), "the unfolded second count is not the seconds field plus the NTP epoch plus a whole number of eras ("+why+")")
+		r.Violate("C04.unfold", fname, "congruent-to-seconds-field"+suffix, posOf(p, at), "the unfolded second count is not the seconds field plus the NTP epoch plus a whole number of eras ("+why+")")
 	}
 }
 
@@ -194,9 +205,17 @@ func c04Fraction(p *ana.Prog, r *ana.Result, pset *ana.ProverSet, from, to *ssa.
 		}
 	})
 	unix := ana.CallsIn(to, "time.Unix")
-	if fst == nil || nano == nil || len(unix) != 1 {
+	if fst == nil || nano == nil || len(unix) == 0 {
 		r.Violate("C04.fraction", ana.FuncName(from), "anchors", p.Pos(from.Pos()), "UNDECIDED: Fraction store / Nanosecond() source / time.Unix result not found")
 		return
+	}
+	for _, u := range unix[1:] {
+		a, ok1 := pt.Int(u.Common().Args[1], 0)
+		b, ok2 := pt.Int(unix[0].Common().Args[1], 0)
+		if !ok1 || !ok2 || a.String() != b.String() {
+			r.Violate("C04.fraction", ana.FuncName(to), "anchors", posOf(p, u), "UNDECIDED: the result sites of TimeFromTime64 do not use the same nanosecond value")
+			return
+		}
 	}
 	nAtom := pf.SetRange(nano, 0, 999999999, true)
 	fracL, ok1 := pf.Int(fst.Val, 0)
